@@ -29,7 +29,9 @@ type c11Bucket struct {
 	subs map[string]*c11Bucket
 }
 
-func newC11Bucket() *c11Bucket { return &c11Bucket{kv: map[string]string{}, subs: map[string]*c11Bucket{}} }
+func newC11Bucket() *c11Bucket {
+	return &c11Bucket{kv: map[string]string{}, subs: map[string]*c11Bucket{}}
+}
 
 func (b *c11Bucket) clone() *c11Bucket {
 	n := newC11Bucket()
